@@ -97,10 +97,15 @@ fn lookup(id: &str) -> Option<(&'static str, Gen, Exec)> {
 fn c05_generate(ctx: &mut Ctx) {
     c05::generate(ctx);
     c05b::generate_into(ctx);
+    c05::generate_codec(ctx);
 }
 
 fn c05_exec(toks: &[&str]) -> String {
-    if toks.first() == Some(&"crlx") { c05b::exec(toks) } else { c05::exec(toks) }
+    match toks.first() {
+        Some(&"crlx") => c05b::exec(toks),
+        Some(&"roax") | Some(&"road") | Some(&"aspax") | Some(&"aspad") => c05::exec_codec(toks),
+        _ => c05::exec(toks),
+    }
 }
 
 fn main() {
